@@ -481,8 +481,10 @@ def ref_list(t, off, items, writes, top=False):
         if t.kind == 'array' and t.n is None: maxidx = max(maxidx, P[0] + 1)
         st, so, sw = locate(t, off, P)
         if val[0] == 'list':
-            # earlier initialisers inside this subobject: gcc/clang re-initialise the whole subobject, cproc overlays; C11 is read both ways
-            if any(so <= w[0] < so + sw for w in writes): raise Unjudged('braced re-initialisation of a subobject with earlier initialisers')
+            # a brace-enclosed list initialises the WHOLE subobject (6.7.9p19, p21: what it does not name is zero): earlier initialisers inside it are gone, as gcc and clang have it
+            if any(w[0] < so + sw and so < w[0] + w[1] and not (so <= w[0] and w[0] + w[1] <= so + sw) for w in writes):
+                raise Unjudged('braced re-initialisation of part of an earlier, larger initialiser')
+            writes[:] = [w for w in writes if not (so <= w[0] and w[0] + w[1] <= so + sw)]
             if st.kind == 'scalar':
                 if len(val[1]) > 1 and all(not d and v[0] == 'e' for d, v in val[1]): raise RefError('too many initializers for a scalar')
                 if len(val[1]) != 1 or val[1][0][0] or val[1][0][1][0] != 'e': raise Unjudged('odd braces around scalar')
